@@ -6,4 +6,4 @@ From Coq Require Extraction.
 From Coq Require Import ExtrOcamlBasic.
 From MdspanVerif Require Import MachInt ListAux Layouts Extents Convert View MdArray Submdspan SubSpec Concurrency ObjLayout Constraints Deduction DriverModel.
 Extraction Language OCaml.
-Extraction "model.ml" ity_of_nat map_transcript x_ctor x_conv x_cmp v_conv v_cmp lkind_of_nat k_dbgconv s_chain a_access p_program r_program t_threads l_layout q_query g_query.
+Extraction "model.ml" ity_of_nat map_transcript x_ctor x_conv x_cmp x_view v_conv v_cmp lkind_of_nat k_dbgconv s_chain a_access p_program r_program t_threads l_layout q_query g_query.
